@@ -212,6 +212,7 @@ func main() {
 
 	files := []*leanFile{genParams(), genSwitches(), genTables(), genWrites(), genTileGo()}
 	files = append(files, genFloatTies()...) // translate_float.go: BoundGo, ClipGo, PlanarGo, … (float ties)
+	files = append(files, genPkgState())     // pkgstate.go: package-level variables, imports, go statements per package (C17)
 	for _, lf := range files {
 		if err := os.WriteFile(filepath.Join(*out, lf.name+".lean"), []byte(lf.b.String()), 0o644); err != nil {
 			fmt.Fprintln(os.Stderr, err)
